@@ -484,10 +484,6 @@ def translate_cm_wrappers(repo):
             "Definition gen_cm_wrappers : list (string * string * string) :=\n  [" + body + "].\n")
 
 
-def translate_all(repo):
-    return translate_metrics(repo)
-
-
 if __name__ == "__main__":
     import sys
     r = sys.argv[1] if len(sys.argv) > 1 else "/repo"
